@@ -36,7 +36,12 @@ let verdict_line p nbuild s =
   let failed = if nbuild > 0 then "build_errors" :: failed else failed in
   let v = sv_verdict p (n_of_int nbuild) s in
   if v <> (failed = []) then failwith "verdict does not decompose";
-  if v then "valid" else "invalid rules=" ^ String.concat "," failed
+  let cls =
+    if v || nbuild > 0 then ""
+    else if sv_known_builtin_scalar_directives p s then " class=builtin_scalar_directives"
+    else if sv_known_nested_scalar_object_dup p s then " class=nested_scalar_object_dup"
+    else "" in
+  if v then "valid" else "invalid rules=" ^ String.concat "," failed ^ cls
 
 (* the pristine built-in definitions (dump of Schema::new()), read once from the file named by C14_BUILTINS;
    a case marked P carries only the user's definitions and is completed with them, a case marked F is a full dump *)
